@@ -64,10 +64,8 @@ def check_run(case, res, shift, tag):
             if hidden_run:
                 hidden_between = True
             gap = spec['t_us'] - prev_shown_t
-            if gap == 1_000_000 and not case.get('whole_seconds'):
-                res.count('exactly-one-second-gaps-skipped')
-            else:
-                want = gap > 1_000_000
+            if True:
+                want = gap > 1_000_000      # exactly one second does not *exceed* a second
                 if gap == 1_000_000: res.count('exactly-one-second-gaps-decided')
                 classes.add('gap>1s' if want else 'gap<=1s')
                 if bool(sl) != want:
@@ -109,9 +107,7 @@ def check_run(case, res, shift, tag):
             pos += 1
             if prev is not None:
                 gap = specs[i]['t_us'] - specs[prev]['t_us']
-                if gap == 1_000_000 and not case.get('whole_seconds'):
-                    res.count('exactly-one-second-gaps-skipped')
-                else:
+                if True:
                     want = gap > 1_000_000
                     if bool(seps) != want:
                         res.bad(('list-separator-missing' if want else 'list-separator-spurious') + tag,
@@ -151,7 +147,7 @@ class Shifts(Stage):
     def gen(self, d, tier):
         nmsg = d.int(3, 28)
         specs = histgen.history(d, nconn=d.int(1, 2), nmsg=nmsg, profile=PROFILE, t0=d.choice([0, 1, 999, 1000, 123456, 59_999_999]),
-                                gaps=[0, 1, 13, 250, 999, 1000, 999_999, 1_000_001, 1_000_001, 999_999, 500_000, 500_001, 2_500_000, 60_000_000])
+                                gaps=[0, 1, 13, 250, 999, 1000, 999_999, 1_000_000, 1_000_000, 1_000_001, 999_999, 500_000, 500_001, 2_500_000, 60_000_000])
         order = 'chronological'
         if d.chance(0.15):
             # a log that is not chronological with respect to its first line (several processes writing one log, a wrapped
@@ -237,7 +233,7 @@ class SinkSessions(Stage):
         ops, is_open = [], []
         t = d.choice([0, 1000, 5_000_000, 123_456_789])
         for _ in range(d.int(4, 30)):
-            t += d.choice([0, 1000, 250_000, 999_999, 1_000_001, 2_500_000]) if d.chance(0.8) else d.int(0, 3_000_000)
+            t += d.choice([0, 1000, 250_000, 999_999, 1_000_000, 1_000_001, 2_500_000]) if d.chance(0.8) else d.int(0, 3_000_000)
             k = d.weighted([(3, 'open'), (3, 'close'), (10, 'message')])
             if k == 'message' and is_open:
                 ops.append(['message', d.choice(is_open), d.choice(['sync', 'done', 'get_registry', 'delete_id']), t])
@@ -310,7 +306,7 @@ class SinkSessions(Stage):
                 res.bad('sink:time-column' + (':after-all-connections-closed' if gap_open else ''), '%r shown at %s, exact %d us after the first message' % (
                     line, session.MSG_LINE.match(ml[0]).group(1), exact))
                 break
-            if prev_t is not None and t - prev_t != 1_000_000:
+            if prev_t is not None:
                 want = t - prev_t > 1_000_000
                 if bool(sl) != want:
                     res.bad('sink:separator-' + ('missing' if want else 'spurious'), 'before %r: gap %d us, separators %r' % (line, t - prev_t, sl))
@@ -337,7 +333,7 @@ class C16(Prop):
             '(+-1 in the last printed digit), a separator must sit between two consecutively shown messages iff their exact gap exceeds '
             '1000000 us, and the shifted log must display the same up to 1 unit in time-valued fields. non-trivial = shift != 0, a hidden message '
             'between two shown ones, and gaps on both sides of the threshold; distinct by SHA-1 of the case.')
-    assumptions = ['a gap of exactly 1000000 us between shown neighbours is undetermined in binary floating point: skipped and counted',
+    assumptions = ['a gap of exactly 1000000 us between shown neighbours does not exceed a second: no separator (decided since fix 205ee9e)',
                    'timestamps stay below 2^32 us (no wrap-around of libwayland\'s clock)',
                    'listings are only issued after the stream (a listing between two live messages makes "one after the other" ambiguous)']
     stages = [Shifts(), SinkSessions()]
